@@ -33,7 +33,7 @@ def _probe(model_top):
 def %(name)s(rest: List[Tuple[int, int]]) -> bool:
     """
     pre: len(rest) <= MAXLEN
-    pre: all(0 <= a[0] <= 7 and 0 <= a[1] <= 1 for a in rest)
+    pre: all(0 <= a[0] <= 8 and 0 <= a[1] <= 1 for a in rest)
     post: __return__ == True
     """
     _PATHS[0] += 1
@@ -52,34 +52,41 @@ def %(name)s(rest: List[Tuple[int, int]]) -> bool:
             if built:
                 kind, c = built.pop(a %% len(built))
                 c.__enter__()
-                entered.append(c)
+                entered.append((kind, c))
                 top = model[-1]
                 model.append((False, top[1]) if kind == 0 else (top[0], True))
         elif op == 3:            # with no_grad():
             c = synapgrad.no_grad()
             c.__enter__()
-            entered.append(c)
+            entered.append((0, c))
             model.append((False, model[-1][1]))
         elif op == 4:            # with retain_grads():
             c = synapgrad.retain_grads()
             c.__enter__()
-            entered.append(c)
+            entered.append((1, c))
             model.append((model[-1][0], True))
         elif op == 5:            # leave the innermost context normally
             if entered:
-                entered.pop().__exit__(None, None, None)
+                entered.pop()[1].__exit__(None, None, None)
                 model.pop()
         elif op == 6:            # leave the innermost context by exception
             if entered:
-                r = entered.pop().__exit__(ValueError, ValueError("x"), None)
+                r = entered.pop()[1].__exit__(ValueError, ValueError("x"), None)
                 model.pop()
                 ok = ok and not r            # the exception must not be swallowed
+        elif op == 8:            # enter a context object that is already entered (the same object nested in itself)
+            if entered:
+                kind, c = entered[a %% len(entered)]
+                c.__enter__()
+                entered.append((kind, c))
+                top = model[-1]
+                model.append((False, top[1]) if kind == 0 else (top[0], True))
         else:
             ok = ok and _probe(model[-1])
         ok = ok and (TM.gradient__, TM.retain_grads__) == model[-1]
     ok = ok and _probe(model[-1])
     while entered:
-        entered.pop().__exit__(None, None, None)
+        entered.pop()[1].__exit__(None, None, None)
     TM.gradient__ = True
     TM.retain_grads__ = False
     return ok
@@ -88,7 +95,7 @@ def %(name)s(rest: List[Tuple[int, int]]) -> bool:
 def %(name)s_twin(rest: List[Tuple[int, int]]) -> bool:
     """
     pre: len(rest) <= MAXLEN
-    pre: all(0 <= a[0] <= 7 and 0 <= a[1] <= 1 for a in rest)
+    pre: all(0 <= a[0] <= 8 and 0 <= a[1] <= 1 for a in rest)
     post: False
     """
     return True
@@ -310,7 +317,7 @@ def main(tier, seed):
         results = list(ex.map(job, files))
     return finish(PROP, tier, seed, results, t0, {
         "h1": "mode stack: ops 0 construct no_grad, 1 construct retain_grads, 2 enter a constructed one, 3 with no_grad, "
-              "4 with retain_grads, 5 exit, 6 exit by exception, 7 probe; first action fixed per partition + <= %d symbolic" % (3 if tier == "quick" else 4),
+              "4 with retain_grads, 5 exit, 6 exit by exception, 7 probe, 8 re-enter an object that is already entered; first action fixed per partition + <= %d symbolic" % (3 if tier == "quick" else 4),
         "h2": "flags/backward: ops 0-2 contexts, 3 float leaf, 4 int leaf, 5 unary, 6 binary, 7 set requires_grad, "
               "8 retain_grad, 9 backward, 10 numpy(), 11 detach, 12 float leaf from int data via dtype=, 13 computed leaf flagged afterwards; first action fixed per partition + <= %d symbolic" % (2 if tier == "quick" else 3)})
 
